@@ -403,6 +403,9 @@ func (d *LimbDom) wideShr(in *Interp, w *Wide, k uint, pos ssa.Instruction) Val 
 
 func (d *LimbDom) wideMod(w *Wide, j uint) Val {
 	m := new(big.Int).Sub(pow2(j), big.NewInt(1))
+	if w.Lo.Cmp(w.Hi) == 0 {
+		return Int{V: new(big.Int).And(w.Lo, m)}
+	}
 	if w.Hi.Cmp(m) <= 0 {
 		return d.mk(w.Lo, w.Hi, w.P)
 	}
